@@ -57,6 +57,9 @@ inductive Kind where
   | pure     -- @asynq(pure=True) on a generator function (PureAsyncDecorator; `fn(args)` returns the task)
   | proxy    -- @async_proxy() function returning `inner.asynq(args)` of a `gen` function (AsyncProxyDecorator)
   | plain    -- @asynq() on a function that is not a generator (`needs_wrapper = False`, `_fn_wrapper`)
+  | dedup    -- @deduplicate() over @asynq() on a generator function (asynq/tools.py DeduplicateDecorator, a subclass of
+             --   AsyncDecorator whose `fn` is the inner AsyncDecorator OBJECT: `asynq()` / `asyncio()` forward to it, `__call__`
+             --   is inherited)
   deriving Repr, DecidableEq, Inhabited
 
 /-- The kind of Python object a body returns for `ret tag` / `res tag` (harness: `VALUE_KINDS[tag / 10]` in checks/c15.py).
@@ -83,6 +86,12 @@ structure Call where
   kind : Kind
   afn : Bool       -- decorated with an explicit `asyncio_fn=g` (g logs `afn` and awaits the plain function's `.asyncio()`)
   label : Nat      -- static label of the call site = identity of the task (programs are trees: used at most once)
+  sfn : Bool := false
+                   -- declared with `sync_fn=f` (AsyncAndSyncPairDecorator; as a method / classmethod / staticmethod the copy bound
+                   --   by its `__get__`, called through AsyncAndSyncPairDecoratorBinder): a plain synchronous call is `f(args)`;
+                   --   the harness' f logs `sfn` and makes the plain synchronous call of the function declared without sync_fn.
+                   --   `.asynq()` / `.asyncio()` of such a function are those of AsyncDecorator (the flag is read by no other path).
+                   --   The ROOT call of a case never carries it (with a sync_fn, `fn(args)` IS `f(args)` by definition)
   deriving Repr, DecidableEq, Inhabited
 
 mutual
@@ -123,6 +132,7 @@ inductive Ev where
                                                   --   error its handler does not catch arrived at its yield
   | afn (t : Nat)                                 -- the explicit asyncio_fn of call site t was entered
   | syncX (t : Nat) (o : Out)                     -- a plain synchronous call made inside t came back with o
+  | sfn (t : Nat)                                 -- the `sync_fn` of call site t was entered (a synchronous implementation RAN)
   | bad (s : String)                              -- an observation the vocabulary cannot express (never produced by the model)
   deriving Repr, DecidableEq, Inhabited
 
@@ -132,6 +142,7 @@ def Ev.label : Ev → Nat
   | .fin t _ => t
   | .afn t => t
   | .syncX t _ => t
+  | .sfn t => t
   | .bad _ => 0
 
 structure St where
@@ -147,6 +158,19 @@ def isFin (t : Nat) : Ev → Bool
 
 /-- has the body of task t finished? -/
 def St.finished (s : St) (t : Nat) : Bool := s.log.any (isFin t)
+
+/-- The exception with which a plain synchronous call `c(args)` is refused while the flag is on:
+    AsyncDecorator.__call__ / AsyncAndSyncPairDecorator.__call__ `raise RuntimeError(_sync_call_in_asyncio_mode_message(self.fn))`
+    (the message describes the function that `self.fn` finally wraps, so it can be built for a DeduplicateDecorator too) -/
+def refusal (_c : Call) : Err := .syncRefused
+
+/-- The state in which the callee of a plain synchronous call `c(args)` starts when the call is NOT refused:
+    * AsyncDecorator.__call__ (no sync_fn): `return self._call_pure(args, kwargs).value()` - the body starts;
+    * AsyncAndSyncPairDecorator.__call__ (`sync_fn=f`; AsyncAndSyncPairDecoratorBinder.__call__ forwards to it):
+      `return self.sync_fn(*args, **kwargs)` - f runs (the harness' f logs `sfn` and calls the function declared without
+      sync_fn synchronously, whose body then starts). -/
+def syncStart (c : Call) (s : St) : St :=
+  (if c.sfn then s.emit (.sfn c.label) else s).emit (.start c.label s.mode)
 
 mutual
 /-- labels of the tasks yielded together in one structure that the ASYNQ scheduler takes as futures to compute
@@ -262,9 +286,10 @@ def bodyR (gen : Bool) (t : Nat) (env : List Val) (caught : Option Err) (i : Nat
       | .esc v => (.esc v, s1)    -- never happens (see `Proofs.ysR_noEsc`): a task turns AsyncTaskResult into its value
   | .sync c child k h, s =>
     -- AsyncDecorator.__call__: `if is_asyncio_mode(): raise RuntimeError(...)  else: return self._call_pure(args, kwargs).value()`
+    -- AsyncAndSyncPairDecorator.__call__ (c.sfn): the same guard, `else: return self.sync_fn(*args, **kwargs)` (`syncStart`)
     let (r, s1) :=
-      if s.mode then ((Out.err .syncRefused, s) : Out × St)
-      else bodyR c.kind.isGen c.label [] none 0 child (s.emit (.start c.label s.mode))
+      if s.mode then ((Out.err (refusal c), s) : Out × St)
+      else bodyR c.kind.isGen c.label [] none 0 child (syncStart c s)
     let s2 := s1.emit (.syncX t r)
     match r with
     | .ok v => bodyR gen t (env ++ [v]) caught i k s2
@@ -362,10 +387,11 @@ def bodyA (gen : Bool) (t : Nat) (env : List Val) (caught : Option Err) (i : Nat
         else bodyA gen t env (some e) (i + 1) h (s1.emit (.run t (i + 1) d s1.mode (.err e)))
       | .esc v => (.esc v, s1)         -- not an `Exception`: propagates out of the loop; the generator is abandoned
   | .sync c child k h, s =>
-    -- AsyncDecorator.__call__ (allow_sync_call=False): refused while the flag is on
+    -- AsyncDecorator.__call__ / AsyncAndSyncPairDecorator.__call__ (allow_sync_call=False): refused while the flag is on -
+    -- BEFORE anything of the callee (its body, its sync_fn) runs
     let (r, s1) :=
-      if s.mode then ((Out.err .syncRefused, s) : Out × St)
-      else bodyR c.kind.isGen c.label [] none 0 child (s.emit (.start c.label s.mode))
+      if s.mode then ((Out.err (refusal c), s) : Out × St)
+      else bodyR c.kind.isGen c.label [] none 0 child (syncStart c s)
     let s2 := s1.emit (.syncX t r)
     match r with
     | .ok v => bodyA gen t (env ++ [v]) caught i k s2
@@ -481,9 +507,9 @@ structure Obs where
   log : List Ev      -- oldest first
   deriving Repr, DecidableEq, Inhabited
 
-/-- `fn(args)`: AsyncDecorator.__call__ -/
+/-- `fn(args)`: AsyncDecorator.__call__ (the root function of a case is declared without sync_fn: `c.sfn` is not read) -/
 def topCall (c : Call) (p : Prog) (s : St) : Out × St :=
-  if s.mode then (.err .syncRefused, s)
+  if s.mode then (.err (refusal c), s)
   else bodyR c.kind.isGen c.label [] none 0 p (s.emit (.start c.label s.mode))
 
 /-- `fn.asynq(args).value()`: `_call_pure` gives an AsyncTask only while the flag is off (a coroutine has no `.value()`) -/
@@ -529,6 +555,10 @@ def isSyncX : Ev → Bool
   | .syncX _ _ => true
   | _ => false
 
+def isSfn : Ev → Bool
+  | .sfn _ => true
+  | _ => false
+
 /-- every body saw the flag `m` -/
 def modeSeen (m : Bool) : Ev → Bool
   | .start _ m' => m' == m
@@ -539,8 +569,17 @@ def dcOk : Ev → Bool
   | .run _ _ dc _ _ => dc
   | _ => true
 
+/-- under asyncio a plain synchronous call comes back with the RuntimeError, and no `sync_fn` has run -/
 def syncRefusedOk : Ev → Bool
   | .syncX _ o => o == .err .syncRefused
+  | .sfn _ => false
+  | _ => true
+
+/-- under asyncio a plain synchronous call FAILS - with the RuntimeError or (`refusal`) with the TypeError of building its
+    message - and no `sync_fn` has run: what holds of the code as it is for every program (`C15_asyncio_run_good`) -/
+def syncFailedOk : Ev → Bool
+  | .syncX _ o => o == .err .syncRefused || o == .err .other
+  | .sfn _ => false
   | _ => true
 
 def syncAllowedOk : Ev → Bool
@@ -739,6 +778,26 @@ def Ys.noRaiseB : Ys → Bool
 def YsL.noRaiseB : YsL → Bool
   | .nil => true
   | .cons y l => Ys.noRaiseB y && YsL.noRaiseB l
+end
+
+mutual
+/-- no plain synchronous call of a @deduplicate() function: the side condition of the statements about HOW a synchronous call
+    is refused (`C15_sync_refused_with_RuntimeError_partial`, `C15_spec_holds_partial`) -/
+def Prog.noDedupSync : Prog → Bool
+  | .yld _ y k h => Ys.noDedupSync y && Prog.noDedupSync k && Prog.noDedupSync h
+  | .sync c child k h => !(c.kind == .dedup) && Prog.noDedupSync child && Prog.noDedupSync k && Prog.noDedupSync h
+  | _ => true
+def Ys.noDedupSync : Ys → Bool
+  | .task _ p => Prog.noDedupSync p
+  | .tup l => YsL.noDedupSync l
+  | .lst l => YsL.noDedupSync l
+  | .dict _ l => YsL.noDedupSync l
+  | .sub y => Ys.noDedupSync y
+  | .pval y => Ys.noDedupSync y
+  | _ => true
+def YsL.noDedupSync : YsL → Bool
+  | .nil => true
+  | .cons y l => Ys.noDedupSync y && YsL.noDedupSync l
 end
 
 /-- the side condition of the `_partial` theorems about BaseException: no handler of the program catches BaseException, or
